@@ -397,7 +397,11 @@ func runC11(tier string, seed uint64) int {
 		fmt.Println("INCONCLUSIVE:", err)
 		return 2
 	}
-	defer os.RemoveAll(root)
+	if os.Getenv("VERIF_KEEP") == "" {
+		defer os.RemoveAll(root)
+	} else {
+		fmt.Println("kept", root)
+	}
 	scratch := filepath.Join(root, "scratch")
 	os.MkdirAll(scratch, 0755)
 	nValid := 5
@@ -406,28 +410,45 @@ func runC11(tier string, seed uint64) int {
 		fmt.Println("INCONCLUSIVE:", err)
 		return 2
 	}
-	// one failing project per class, derived from a valid one
-	var failing []batchLine
+	// failing projects derived from valid ones: per class the plainest form (shape 0, used in the class x position x
+	// concurrency enumeration) and further shapes of the same fault (run alone and together in the mixed batches)
+	var failing []batchLine // shape 0, one per class
+	var shaped []batchLine  // further shapes
 	r := NewRng(mix(seed, 11))
+	nShapes := 3
+	if tier == "thorough" {
+		nShapes = 4
+	}
 	for ci, class := range c11FaultClasses {
-		base := cloneScenario(scs[ci%len(scs)])
-		base.Project = fmt.Sprintf("f%02d", ci)
-		base.Weather.Folder = fmt.Sprintf("wf%02d", ci)
-		like := applyFault(base, class, r)
-		args, err := base.Materialize(root, filepath.Join(root, "res_unused"))
-		if err != nil {
-			continue
-		}
-		var toks []string
-		for _, a := range args {
-			if !strings.HasPrefix(a, "resultfolder=") {
-				toks = append(toks, a)
+		for sh := 0; sh < nShapes; sh++ {
+			base := cloneScenario(scs[(ci+sh)%len(scs)])
+			base.Project = fmt.Sprintf("f%02d_%d", ci, sh)
+			base.Weather.Folder = fmt.Sprintf("wf%02d_%d", ci, sh)
+			like := applyFault(base, class, r, sh)
+			if like == "" {
+				continue // the fault cannot be placed in this project
+			}
+			args, err := base.Materialize(root, filepath.Join(root, "res_unused"))
+			if err != nil {
+				continue
+			}
+			var toks []string
+			for _, a := range args {
+				if !strings.HasPrefix(a, "resultfolder=") {
+					toks = append(toks, a)
+				}
+			}
+			bl := batchLine{ID: fmt.Sprintf("F%02ds%d", ci, sh), Project: base.Project, Tokens: toks, Fail: class, ErrLike: like, DupOf: -1}
+			if sh == 0 {
+				failing = append(failing, bl)
+			} else {
+				shaped = append(shaped, bl)
+				agg.add("fault_shapes_beyond_the_plainest", 1)
 			}
 		}
-		failing = append(failing, batchLine{ID: fmt.Sprintf("F%02d", ci), Project: base.Project, Tokens: toks, Fail: class, ErrLike: like, DupOf: -1})
 	}
 	os.RemoveAll(filepath.Join(root, "res_unused"))
-	all := append(append([]batchLine{}, valid...), failing...)
+	all := append(append(append([]batchLine{}, valid...), failing...), shaped...)
 	refs := soloReferences(bin, root, all, scratch, 1, func(sig, msg string) { agg.violate("C11", sig, msg) })
 	// the fault classes must be reported as run errors when run alone; the valid lines must succeed
 	for i, l := range all {
